@@ -386,8 +386,10 @@ static bool sbml_fragment(const Basic &b, std::string &why)
             break;
         case SYMENGINE_REAL_DOUBLE: {
             double d = down_cast<const RealDouble &>(b).i;
-            if (!std::isfinite(d) || (d == 0 && std::signbit(d))) {
-                why = "non-finite or negative-zero double";
+            // 0.0 as the coefficient of a sum is absorbed by add() when the text is re-read (exact 0): the constructors'
+            // treatment of a floating zero is number semantics (C05/C06), not printing
+            if (!std::isfinite(d) || d == 0) {
+                why = "non-finite or zero double";
                 return false;
             }
             break;
@@ -513,7 +515,11 @@ static void check_output(const std::string &which, const Basic &e, const std::st
             stat("unicode_empty_output"); // UnicodePrinter::bvisit(const Constant &) ignores user constants
     } else if (which == "sbml") {
         std::string why;
-        if (!sbml_fragment(e, why)) {
+        // a floating zero hides from get_args() when it is the coefficient of a sum (Add::get_args() skips a
+        // coefficient that is_zero()): look at the dump as well
+        bool float_zero = sx.find("(D 0000000000000000)") != std::string::npos
+                          || sx.find("(D 8000000000000000)") != std::string::npos;
+        if (float_zero || !sbml_fragment(e, why)) {
             stat("sbml_outside_fragment");
             return;
         }
@@ -777,6 +783,34 @@ void hx_gen(Rng &r, const std::string &tier)
         put_all(function_symbol("f", x)->diff(rcp_static_cast<const Symbol>(x)), "derivative");
         put_all(function_symbol("g", vec_basic{x, y})->diff(rcp_static_cast<const Symbol>(x))->diff(rcp_static_cast<const Symbol>(y)),
                 "derivative");
+    }
+    // nested powers: the exponent (and the base) is itself a power with a non-integer rational exponent p/q
+    // (q in 2..5, p in -5..5 not divisible by q; 1/2 and -1/2 print as sqrt(...) calls: controls)
+    {
+        std::vector<RCP<const Basic>> rexps;
+        for (long q = 2; q <= 5; q++)
+            for (long p = -5; p <= 5; p++)
+                if (p % q != 0)
+                    rexps.push_back(Rational::from_two_ints(*integer(p), *integer(q)));
+        size_t k = 0;
+        for (auto &pq : rexps) {
+            RCP<const Basic> in = vgen::sym((int)(k % 3) + 1); // y z w
+            RCP<const Basic> inner = pow(in, pq);
+            RCP<const Basic> outer_base = (k % 4 == 3) ? rcp_static_cast<const Basic>(integer(2 + (long)(k % 5))) : x;
+            put_all(pow(outer_base, inner), "nested-power");          // x**(y**(p/q)), 2**(y**(p/q))
+            if (k % 3 == 0)
+                put_all(pow(inner, x), "nested-power");               // (y**(p/q))**x
+            if (k % 3 == 1)
+                put_all(add(mul(integer(3), pow(x, pow(add(in, one), pq))), pow(z, neg(inner))), "nested-power");
+            if (k % 3 == 2)
+                put_all(div(pow(x, inner), pow(y, pow(x, pq))), "nested-power");
+            k++;
+        }
+        // a few random ones
+        for (int i = 0; i < 6 * N; i++) {
+            RCP<const Basic> pq = rexps[r.below(rexps.size())], pq2 = rexps[r.below(rexps.size())];
+            put_all(pow(vgen::sym((int)r.below(4)), pow(pow(vgen::sym((int)r.below(4)), pq2), pq)), "nested-power");
+        }
     }
     // arithmetic trees
     for (int i = 0; i < 70 * N; i++) {
